@@ -5,10 +5,12 @@ package hist
 
 import (
 	"context"
+	"errors"
 	"fmt"
 	"time"
 
 	"github.com/google/uuid"
+	"google.golang.org/grpc/codes"
 	"google.golang.org/grpc/status"
 	"google.golang.org/protobuf/types/known/durationpb"
 	"google.golang.org/protobuf/types/known/fieldmaskpb"
@@ -255,6 +257,53 @@ func (r *Runner) exec(c model.Call) model.Obs {
 		_, err = w.Sub.UpdateSubscription(ctx, &pubsubpb.UpdateSubscriptionRequest{
 			Subscription: &pubsubpb.Subscription{Name: model.SubPath(c.Op.Sub), DeadLetterPolicy: &pubsubpb.DeadLetterPolicy{DeadLetterTopic: model.TopicPath(c.Op.Topic), MaxDeliveryAttempts: 3}, RetryPolicy: &pubsubpb.RetryPolicy{MinimumBackoff: durationpb.New(2 * time.Second)}},
 			UpdateMask:   &fieldmaskpb.FieldMask{Paths: []string{"dead_letter_policy", "retry_policy", "expiration_policy"}}})
+	case "stream":
+		// a StreamingPull session on the real handler: Tgt says where the ack ids go
+		first := &pubsubpb.StreamingPullRequest{Subscription: model.SubPath(c.Op.Sub), StreamAckDeadlineSeconds: 10, MaxOutstandingMessages: 1000, MaxOutstandingBytes: 10 << 20, ClientId: "verif"}
+		reqs := []*pubsubpb.StreamingPullRequest{first}
+		switch c.Op.Tgt {
+		case "open-ack":
+			first.AckIds = c.AckIDs
+		case "later-ack":
+			reqs = append(reqs, &pubsubpb.StreamingPullRequest{AckIds: c.AckIDs})
+		case "open-nack":
+			first.ModifyDeadlineAckIds = c.AckIDs
+			first.ModifyDeadlineSeconds = make([]int32, len(c.AckIDs))
+		case "later-nack":
+			reqs = append(reqs, &pubsubpb.StreamingPullRequest{ModifyDeadlineAckIds: c.AckIDs, ModifyDeadlineSeconds: make([]int32, len(c.AckIDs))})
+		case "later-extend":
+			secs := make([]int32, len(c.AckIDs))
+			for i := range secs {
+				secs[i] = 60
+			}
+			reqs = append(reqs, &pubsubpb.StreamingPullRequest{ModifyDeadlineAckIds: c.AckIDs, ModifyDeadlineSeconds: secs})
+		}
+		var sent []*pubsubpb.ReceivedMessage
+		w.SetSerialTx(true)
+		defer w.SetSerialTx(false)
+		var marks []int
+		sent, marks, err = streamSession(w.Sub, ctx, reqs)
+		if status.Code(err) == codes.Canceled || errors.Is(err, context.Canceled) {
+			err = nil // the harness ended the stream
+		}
+		for i, rm := range sent {
+			m := model.RecvMsg{AckID: rm.AckId, Attempt: int(rm.DeliveryAttempt)}
+			for k := 1; k < len(marks); k++ {
+				if i >= marks[k] {
+					m.Phase = k // sent after the k-th follow-up request went in
+				}
+			}
+			if rm.Message != nil {
+				m.MsgID = rm.Message.MessageId
+				m.Data = rm.Message.Data
+				m.Attrs = rm.Message.Attributes
+				m.Key = rm.Message.OrderingKey
+				if rm.Message.PublishTime != nil {
+					m.PubTime = w.ToLogical(rm.Message.PublishTime.AsTime())
+				}
+			}
+			o.Msgs = append(o.Msgs, m)
+		}
 	case "reconfig":
 		req := &pubsubpb.UpdateSubscriptionRequest{Subscription: &pubsubpb.Subscription{Name: model.SubPath(c.Op.Sub)}}
 		switch c.Op.Tgt {
